@@ -37,7 +37,7 @@ if [ -n "${FASTMISS:-}" ] && ! grep -q '"native_lemmas"\|"pre"' /verif/specs/$PI
   fi
   rm -rf $X
 fi
-if [ -n "$SAME" ]; then :; elif [ -z "${NOVF:-}" ]; then (cd /verif && VF_REPO=$WT VF_JOBS=${VF_JOBS:-6} ./vf check $PID > $OUT/vf_check.out 2>&1); rc_vf=$?; else rc_vf=$(python3 -c "import json;print(json.load(open('$OUT/meta.json'))['vf_check_exit'])" 2>/dev/null || echo -1); fi
+if [ -n "$SAME" ]; then :; elif [ -z "${NOVF:-}" ]; then (cd /verif && VF_REPO=$WT VF_JOBS=${VF_JOBS:-6} ./vf check $PID ${VF_ONLY:+--only $VF_ONLY} > $OUT/vf_check.out 2>&1); rc_vf=$?; else rc_vf=$(python3 -c "import json;print(json.load(open('$OUT/meta.json'))['vf_check_exit'])" 2>/dev/null || echo -1); fi
 git -C $WT checkout -q -- .
 rc_station=skipped
 if [ -z "$NOST" ]; then /verif/tools/station.sh $D/patch.diff > $OUT/station.out 2>&1; rc_station=$?; fi
@@ -47,7 +47,7 @@ vio=[l.strip() for l in open("$OUT/vf_check.out") if l.startswith("VIOLATION") o
 meta={"property":"$PID","name":"$NAME","demo_exit_pristine":$rc_pristine,"demo_exit_patched":$rc_patched,
       "pinned_tests_with_patch":"$rc_station" if "$rc_station"=="skipped" else ("pass" if "$rc_station"=="0" else "FAIL rc=$rc_station"),
       "vf_check_exit":$rc_vf,"caught": $rc_vf==1,"violations":vio[:12],
-      "ran":["demo on pristine scratch worktree and with patch","tools/station.sh (separate build + the 104 pinned tests)","VF_REPO=<scratch> ./vf check $PID"]}
+      "ran":["demo on pristine scratch worktree and with patch","tools/station.sh (separate build + the 104 pinned tests)","VF_REPO=<scratch> ./vf check $PID" + (" --only ${VF_ONLY:-}" if "${VF_ONLY:-}" else "")]}
 json.dump(meta,open("$OUT/meta.json","w"),indent=1)
 print(json.dumps({k:meta[k] for k in ("demo_exit_pristine","demo_exit_patched","pinned_tests_with_patch","vf_check_exit")}))
 EOF
